@@ -25,10 +25,11 @@ def main():
         checks = sys.argv[sys.argv.index("--checks") + 1].split(",")
     if "--src" in sys.argv:
         src = sys.argv[sys.argv.index("--src") + 1]
+    tag = sys.argv[sys.argv.index("--tag") + 1] if "--tag" in sys.argv else ""
     D = "%s/%s/DELIVER" % (src, prop)
     meta = json.load(open("%s/meta%s.json" % (D, k)))
     patch = "%s/patch%s.diff" % (D, k)
-    W = "/tmp/try/ev_%s_%s" % (prop, k)
+    W = "/tmp/try/ev_%s_%s%s" % (prop, tag, k)
     os.makedirs("/tmp/try", exist_ok=True)
     subprocess.run(["git", "-C", "/repo", "worktree", "remove", "--force", W], capture_output=True)
     subprocess.run(["git", "-C", "/repo", "worktree", "prune"])
@@ -100,10 +101,10 @@ def main():
         subprocess.run(["git", "-C", "/repo", "worktree", "remove", "--force", W], capture_output=True)
         subprocess.run(["git", "-C", "/repo", "worktree", "prune"])
         os.makedirs("/tmp/try/results", exist_ok=True)
-        with open("/tmp/try/results/%s_%s.json" % (prop, k), "w") as f:
+        with open("/tmp/try/results/%s_%s%s.json" % (prop, tag, k), "w") as f:
             json.dump(res, f, indent=1)
         if res.get("confirmed"):
-            dst = "/verif/seeded/%s_%s" % (prop, k)
+            dst = "/verif/seeded/%s_%s%s" % (prop, tag, k)
             os.makedirs(dst, exist_ok=True)
             shutil.copy(patch, dst + "/patch.diff")
             shutil.copy("%s/demo%s.cpp" % (D, k), dst + "/demo.cpp")
